@@ -93,6 +93,26 @@ func (s *ltcredSys) Do(a map[string]any, wait func()) ([]Obs, error) {
 		_, key, ok := s.handler(&turn.RequestAttributes{Username: u, Realm: realm,
 			SrcAddr: &net.UDPAddr{IP: net.IPv4(10, 0, 0, 7), Port: 7}})
 		direct := ok && bytes.Equal(key, turn.GenerateAuthKey(u, realm, p))
+		// the verdict does not depend on the method of the request that is being authenticated ...
+		methods := ""
+		for _, m := range []stun.Method{stun.MethodAllocate, stun.MethodRefresh, stun.MethodCreatePermission, stun.MethodChannelBind, stun.MethodConnect} {
+			_, k2, ok2 := s.handler(&turn.RequestAttributes{Username: u, Realm: realm, Method: m,
+				SrcAddr: &net.UDPAddr{IP: net.IPv4(10, 0, 0, 7), Port: 7}})
+			if (ok2 && bytes.Equal(k2, turn.GenerateAuthKey(u, realm, p))) != direct {
+				methods += m.String() + " "
+			}
+		}
+		// ... and the key that was handed out stays what it was when the handler is asked about somebody else
+		kept := true
+		if ok {
+			before := append([]byte{}, key...)
+			other := fmt.Sprintf("%d:somebody-else", time.Now().Unix()+3600)
+			if s.kind == "lt" {
+				other = fmt.Sprintf("%d", time.Now().Unix()+3601)
+			}
+			_, _, _ = s.handler(&turn.RequestAttributes{Username: other, Realm: realm, SrcAddr: &net.UDPAddr{IP: net.IPv4(10, 0, 0, 8), Port: 8}})
+			kept = bytes.Equal(before, key)
+		}
 		e2e, err := s.allocate(u, p, wait)
 		if err != nil {
 			return nil, err
@@ -101,7 +121,7 @@ func (s *ltcredSys) Do(a map[string]any, wait func()) ([]Obs, error) {
 		// is the same whoever else is being authenticated at that moment
 		par := s.parallelSame()
 
-		return []Obs{{"k": "verdict", "ok": direct, "e2e": e2e, "user": u, "par": par}}, nil
+		return []Obs{{"k": "verdict", "ok": direct, "e2e": e2e, "user": u, "par": par, "methods": methods, "kept": kept}}, nil
 	}
 
 	return nil, fmt.Errorf("unknown action %v", a["a"])
@@ -287,6 +307,13 @@ func (s *ltcredSys) Check(e Edge, obs []Obs) []Mismatch {
 		if got, _ := obs[0]["e2e"].(bool); got != want {
 			ms = append(ms, Mismatch{"ltcred", fmt.Sprintf("%s handler end-to-end: Allocate signed with (%q) mutation %v, %v s before expiry: success=%v, spec %v",
 				s.kind, obs[0]["user"], e.A["mut"], e.A["left"], got, want)})
+		}
+		if ms2, _ := obs[0]["methods"].(string); ms2 != "" {
+			ms = append(ms, Mismatch{"ltcred", fmt.Sprintf("%s handler: (%q) mutation %v, %v s before expiry: the verdict for a request of method %sdiffers from the one for the same credentials without a method",
+				s.kind, obs[0]["user"], e.A["mut"], e.A["left"], ms2)})
+		}
+		if kept, _ := obs[0]["kept"].(bool); !kept {
+			ms = append(ms, Mismatch{"ltcred", s.kind + " handler: the key it returned for one user changed when it was asked about another user"})
 		}
 		if par, _ := obs[0]["par"].(bool); !par {
 			ms = append(ms, Mismatch{"ltcred", s.kind + " handler: asked about six user names by six goroutines at once, it gave answers that differ from the ones it gives when asked alone"})
